@@ -100,7 +100,44 @@ def run(chk):
                         variant=vn)
         # zero digit skipped
         guards = c["guards"]
-        skip = len(guards) == 1 and guards[0] in (sym.binop("!=", digit, ZERO), ("op", "!=", digit, ZERO))
+        nz = (sym.binop("!=", digit, ZERO), ("op", "!=", digit, ZERO))
+        skip = any(g_ in nz for g_ in guards)
+        extra = [g_ for g_ in guards if g_ not in nz]
+        if extra:
+            # R7: a coefficient (or digit) may be skipped only when the digit it would select is 0 -- decided by evaluating the
+            # skip condition and the digit expression (both closed terms over the coefficient, j, t, basebit) on boundary
+            # coefficients for every valid layout with t*basebit <= 12
+            from sa.secretflow import eval_term
+            aiv = sym.idx(sym.sym(ai), i)
+            wit = None
+            checked = 0
+            for tv in range(1, 7):
+                for bv in range(1, 7):
+                    tb = tv * bv
+                    if tb > 12 or wit:
+                        continue
+                    cands = set()
+                    for e_ in range(31 - tb - 1, 32):
+                        for dlt in (-1, 0, 1):
+                            cands.add(((1 << e_) + dlt) & 0xFFFFFFFF)
+                    cands |= {0, 1, 0xFFFFFFFF, 0x80000000}
+                    for av in sorted(cands):
+                        for jv in range(tv):
+                            env = {aiv: av, T: tv, W: bv, j: jv}
+                            dv = eval_term(digit, env)
+                            gv = [eval_term(g_, env) for g_ in extra]
+                            if dv is None or any(x is None for x in gv):
+                                chk.broken("lweKeySwitchTranslate_fromArray: skip condition %s not evaluable" % [sym.show(g_) for g_ in extra])
+                            checked += 1
+                            dv &= (1 << bv) - 1
+                            if not all(gv) and dv != 0 and wit is None:
+                                wit = (tv, bv, jv, av, dv)
+            chk.require(wit is None, "R7", "a coefficient is skipped only when every digit it selects is 0", where="%s:%s" % (f.file, c["line"]),
+                        ok="extra condition(s) %s imply digit == 0 on %d boundary evaluations" % ([sym.show(g_)[:50] for g_ in extra], checked),
+                        bad="with t = %d, basebit = %d: the coefficient 0x%08x is skipped by %s although its rounded digit %d is %d (the test looks at the "
+                            "raw coefficient, the digits are taken after adding the rounding offset): the row is not subtracted" % (
+                                (wit or (0, 0, 0, 0, 0))[0], (wit or (0,) * 5)[1], (wit or (0,) * 5)[3], [sym.show(g_)[:60] for g_ in extra],
+                                (wit or (0,) * 5)[2], (wit or (0,) * 5)[4]), variant=vn)
         # R3 generator agreement
         for gname in ("lweCreateKeySwitchKey", "lweCreateKeySwitchKey_fromArray"):
             g = v.fn(gname, required=False)
